@@ -662,11 +662,21 @@ def core_formula(rng, d, scope, ints, cnt):
         q = ForallIntFormula if rng.random() < 0.5 else ExistsIntFormula
         return q(n, core_formula(rng, d - 1, scope, ints + [n], cnt))
     c = ConjunctiveFormula if rng.random() < 0.5 else DisjunctiveFormula
+    k = 2 if rng.random() < 0.6 else rng.choice([3, 3, 4])    # n-ary chains: fragment wf_coreN (ParseCoreNary.v)
     for _ in range(20):
-        a, b = core_formula(rng, d - 1, scope, ints, cnt), core_formula(rng, d - 1, scope, ints, cnt)
-        if a != b and a != -b and b != -a:       # Formula.__and__/__or__ collapse these (not part of the fragment)
-            return c(a, b)
-    return a
+        xs = [core_formula(rng, d - 1, scope, ints, cnt) for _ in range(k)]
+        # Formula.__and__/__or__ collapse A op A and A op not A (not part of the fragment)
+        if all(a != b and a != -b and b != -a for i, a in enumerate(xs) for b in xs[i + 1:]):
+            return c(*xs)
+    return xs[0]
+
+
+def subformulas(f):
+    yield f
+    for a in getattr(f, "args", ()) if isinstance(f, (ConjunctiveFormula, DisjunctiveFormula, NegatedFormula)) else ():
+        yield from subformulas(a)
+    if hasattr(f, "inner_formula"):
+        yield from subformulas(f.inner_formula)
 
 
 def core_cases(run, rng, n_gen, pool, hist, known):
@@ -692,8 +702,8 @@ def core_cases(run, rng, n_gen, pool, hist, known):
          "multi_line": 0, "connective_first_child_parenthesised": 0, "connective_first_child_quantifier": 0}
     hist["core_fragment"] = h
     try:
-        infrag, dt1 = lib.coq_mismatches("c07d", "Outcome Unparse ParseCore ParseCoreFacts ParseCoreMore",
-                                         "fun f : cformula => negb (wf_coreb f)", lits, shard=100)
+        infrag, dt1 = lib.coq_mismatches("c07d", "Outcome Unparse ParseCore ParseCoreFacts ParseCoreMore ParseCoreNary",
+                                         "fun f : cformula => negb (wf_coreNb f)", lits, shard=100)
     except RuntimeError as e:
         run.violation({"kind": "correspondence-not-evaluable", "obligation": "ParseCore.v wf_coreb cases", "error": str(e)[-2000:]},
                       found_input=False)
@@ -731,6 +741,8 @@ def core_cases(run, rng, n_gen, pool, hist, known):
         meta.append({"constraint_text": text, "origin": origin, "impl_reparse": why or "equal", "grammar": gname})
         h["in_fragment"] += 1
         h["in_fragment_generated" if origin == "core-gen" else "in_fragment_from_parsed_sources"] += 1
+        h["nary_connective"] = h.get("nary_connective", 0) + any(
+            isinstance(x, (ConjunctiveFormula, DisjunctiveFormula)) and len(x.args) > 2 for x in subformulas(f))
         h["multi_line"] += "\n" in text
         h["connective_first_child_parenthesised"] += "((" in text
         h["connective_first_child_quantifier"] += "(forall" in text or "(exists" in text
@@ -739,8 +751,14 @@ def core_cases(run, rng, n_gen, pool, hist, known):
             run.violation({"kind": "unparse/parse round trip fails on the implementation inside the proved fragment wf_core",
                            "witness": {"constraint": text, "grammar": gname, "fails": why}})
     try:
-        bad, dt2 = lib.coq_mismatches("c07e", "Outcome Unparse ParseCore ParseCoreFacts ParseCoreMore",
-                                      "core_case_ok", cases, shard=60)
+        # n-ary fragment: the model text is the implementation's text, parse_core of it is the canonical AST of
+        # parse_isla of it, and that AST is binl f — the LEFT-NESTED BINARY tree (theorem C07_print_parse_nary);
+        # on binary constraints binl f = f (C07_binl_binary), i.e. the old predicate core_case_ok
+        ok_def = ("fun c : cformula * str * option cformula => let '(f, t, g) := c in negb (wf_coreNb f) || "
+                  "(str_eqb (unparse f) t && match parse_core t, g with Some a, Some b => ceqb a b && ceqb b (binl f) "
+                  "| _, _ => false end)")
+        bad, dt2 = lib.coq_mismatches("c07e", "Outcome Unparse ParseCore ParseCoreFacts ParseCoreMore ParseCoreNary",
+                                      ok_def, cases, shard=60)
         run.cov["coq_seconds_core"] = round(dt1 + dt2, 1)
         return [dict(meta[i], obligation="parse_core (ParseCore.v) <-> parse_isla on the core fragment") for i in bad]
     except RuntimeError as e:
@@ -925,7 +943,12 @@ def codec_cases(run, rng, n, hist):
     alphabet = [34, 92, 117, 123, 125, 48, 52, 49, 97, 102, 0, 10, 32, 127, 128, 233, 255, 256, 0x4e2d, 0x1f600, 0x2ffff, 110, 40, 41]
     g = GRAMMARS["assgn"]
     cases, meta = [], []
-    strs = [[], [92], [92, 34], [34], [0], [0, 0], [92, 117], [92, 117, 123, 125], [92, 117, 123, 52, 49, 125], [233], [92, 92]]
+    strs = [[], [92], [92, 34], [34], [0], [0, 0], [92, 117], [92, 117, 123, 125], [92, 117, 123, 52, 49, 125], [233], [92, 92],
+            # sub-classes of theorem C07_escape_roundtrip (guard K_str s = false): NUL, chars >= 256, harmless backslashes
+            [97, 0, 98], [256], [0x4e2d, 97], [0x1f600], [0x2ffff], [92, 110], [92, 97], [92, 92, 97], [92, 256], [92, 0],
+            [97, 92, 98, 34], [92, 98, 34], [0, 92, 110, 92, 117, 123, 125, 34, 256, 92, 0, 0x2ffff, 92, 92, 97, 127, 92, 256],
+            # and of the refuted complement
+            [128], [92, 92, 34], [0x30000]]
     while len(strs) < n:
         strs.append([rng.choice(alphabet) for _ in range(rng.randint(1, 6))])
     for cps in strs:
